@@ -287,6 +287,14 @@ def build_tasks(tier):
     for fam, scripts in c07.families(tier):
         for ch in chunks(scripts, 40):
             T.append(('script', 'selected', 'imap', ch))
+        # names, raw names and keywords reach the filesystem on maildir
+        # (folder names, the dovecot-keywords file); thorough: everything
+        if tier != 'quick' or fam in ('raw-names', 'keywords', 'dates'):
+            for ch in chunks(scripts, 20):
+                T.append(('script', 'selected@++', 'imap', ch))
+        elif fam == 'names':
+            for ch in chunks(scripts[:120], 20):
+                T.append(('script', 'selected@++', 'imap', ch))
     # the bad-command limit (default configuration)
     T.append(('limit', 'nonauth', 'imap', None))
     return T
